@@ -143,22 +143,23 @@ void waiting_call(LS &L, IoKind k, bool ready_now, int enabling_kind) {
     return;
   }
   // blocking (or the explicit wait primitive)
-  if (will_be_enabled && (T == 0 || pend_at + 6000000ULL < t0 + T)) {
-    if (!r.ok) violate("blocking_call_gave_up", io_name[k], "blocking %s failed with code %d although the peer acted %llu us after the call started (timeout %d ms)", io_name[k], r.code,
-                       (unsigned long long)((pend_at - t0) / 1000), m.timeout);
-    if (r.dt + 1 < pend_at - t0) violate("blocking_call_returned_before_event", io_name[k], "%s returned after %llu ns, the enabling event came after %llu ns", io_name[k], (unsigned long long)r.dt, (unsigned long long)(pend_at - t0));
+  if (r.ok) {
+    // success is legitimate only if the enabling peer action happened before the call returned
+    // (an interrupted wait is restarted with the full timeout, so the call may outlast T: never checked against T here)
+    if (!(will_be_enabled && pend_at <= now_ns()))
+      violate("call_succeeded_with_nothing_to_do", io_name[k], "%s succeeded although nothing was ready and nothing became ready", io_name[k]);
+    if (pend_at > t0 && r.dt + 1 < pend_at - t0) violate("blocking_call_returned_before_event", io_name[k], "%s returned after %llu ns, the enabling event came after %llu ns", io_name[k], (unsigned long long)r.dt, (unsigned long long)(pend_at - t0));
     probe("state.blocking_waited_for_peer");
     if (r.accepted) S->b.s = r.accepted;
     S->pend_at = 0; S->pend_kind = 0;
     return;
   }
-  if (will_be_enabled && pend_at <= t0 + T + 6000000ULL) {   // too close to the deadline to call (late timers are legal)
-    if (r.ok) { if (r.accepted) S->b.s = r.accepted; S->pend_at = 0; S->pend_kind = 0; }
-    return;
-  }
-  if (r.ok) violate("call_succeeded_with_nothing_to_do", io_name[k], "%s succeeded although nothing was ready and nothing became ready", io_name[k]);
+  // failure of a waiting call: must be a time-out, not before T, and not although the peer acted comfortably in time
   if (r.code != P_ERROR_IO_TIMED_OUT) violate("timeout_wrong_error", io_name[k], "blocking %s with timeout %d ms and nothing to do failed with code %d, expected TIMED_OUT", io_name[k], m.timeout, r.code);
+  if (T == 0) violate("timed_out_without_timeout", io_name[k], "blocking %s without timeout reported a time-out", io_name[k]);
   if (r.dt < T) violate("timed_out_early", io_name[k], "%s with timeout %d ms reported a time-out after only %llu us of simulated time", io_name[k], m.timeout, (unsigned long long)(r.dt / 1000));
+  if (will_be_enabled && pend_at + 6000000ULL < t0 + T)
+    violate("blocking_call_gave_up", io_name[k], "blocking %s timed out although the peer acted %lld us after the call started (timeout %d ms)", io_name[k], (long long)(((int64_t)pend_at - (int64_t)t0) / 1000), m.timeout);
   probe("state.timed_out_on_time");
   if (m.timeout >= 1000) probe("state.long_timeout_cost_nothing");
 }
@@ -290,7 +291,8 @@ void scenario_client() {
     IoResult w = io_call(A, IO_WAIT_OUT);
     if (target == 4) {
       // the stalled attempt is given up by the (simulated) kernel itself after ~130 s; a shorter timeout must expire first
-      if (T > 0 && T < 100000000000ULL) {
+      bool kernel_gave_up = now_ns() - t0 >= 125000000000ULL;    // interrupted waits restart with the full timeout and may add up beyond the kernel's own limit
+      if (T > 0 && T < 100000000000ULL && !kernel_gave_up) {
         if (w.ok) violate("call_succeeded_with_nothing_to_do", "p_socket_io_condition_wait", "POLLOUT wait succeeded while the connection is stalled");
         if (w.code != P_ERROR_IO_TIMED_OUT) violate("timeout_wrong_error", "p_socket_io_condition_wait", "code %d, expected TIMED_OUT", w.code);
         if (w.dt < T) violate("timed_out_early", "p_socket_io_condition_wait", "wait with timeout %d ms gave up after %llu us", m.timeout, (unsigned long long)(w.dt / 1000));
